@@ -92,7 +92,7 @@ def find_roles(ctx):
     # index reader: function of the decoder module called from D that calls get_index_from_selfies
     for s in ctx.cg.sites(D):
         for g in s.callees:
-            if g.module.name == D.module.name and g is not D:
+            if g is not D and g.name != "get_index_from_selfies" and not g.is_method:
                 if any(h.name == "get_index_from_selfies" for s2 in ctx.cg.sites(g) for h in s2.callees):
                     roles["index_reader"] = g
     if "index_reader" not in roles:
